@@ -450,6 +450,69 @@ spec('C05', run=run_c05, search=search_c05,
      assumptions=['“composable” means: the identifier splits into ≥ 2 components (prefix, unit names, per/square/cubic/squared/cubed) naming declared units'])
 
 
+# ------------------------------------------------------------------------------------------------
+# C11 / C12: formatting and parsing (the driver is first fed the Lean-generated label/coefficient table)
+
+
+def text_pipe(ctx, name, mode, features='wide', tier=None, seed=None):
+    if not cargo_build(ctx, features, ['text']):
+        return None
+    dump = lean_dump(ctx)
+    if dump is None:
+        return None
+    cmd = '{ cat %s; %s %s; }' % (dump, bin_path('text', False, features), mode)
+    res = pipe(ctx, name, cmd, tier=tier, seed=seed)
+    absorb(ctx, res, name)
+    return res
+
+
+def run_c11(ctx, tier=None, seed=None):
+    text_pipe(ctx, 'fmt-grid', 'fmt', tier=tier, seed=seed)
+    text_pipe(ctx, 'fmt-debug', 'dbg', tier=tier, seed=seed)
+    text_pipe(ctx, 'fmt-all-units', 'fmtall', features='fl,allsi', tier=tier, seed=seed)
+
+
+spec('C11', run=run_c11, search=search_with(run_c11),
+     rule='42 units of 12 quantities × {f64 si, f64 kgh, f32 cgs, f32 si, i32 si, i64 kgh, BigRational si} × both styles × both entry points (format_args().with, into_format_args) × '
+          'spec grid (13 float specs: width, precision, sign, fill/alignment, zero-pad, e/E/Debug/alternate; 10 integer specs incl. x X o b #) × values (1, −1, 1±ulp, value converting to one, 0, NaN, inf, …); '
+          'every unit of every quantity (2 537) in both styles under {} {:10} {:?}; Debug of bare quantities in si/kgh/fpm base units; non-trivial: every case',
+     trusted_base=['the storage type’s own Display/Debug/LowerExp/… output (format!(spec, x) of the converted value) is the oracle’s parameter', 'labels come from the table validated by the C05 registry diff'],
+     assumptions=[])
+
+
+def run_c12(ctx, tier=None, seed=None):
+    text_pipe(ctx, 'parse', 'parse', tier=tier, seed=seed)
+    text_pipe(ctx, 'format-then-parse', 'prt', tier=tier, seed=seed)
+
+
+def search_c12(ctx):
+    """label obligations broke: name the label by scanning the table (exact), else re-run the cases"""
+    from fractions import Fraction as F
+    t = load_table()
+    for q in t['quantities']:
+        seen = {}
+        for u in q['units']:
+            for l in (u['abbr'], u['sing'], u['plur']):
+                if l != l.strip():
+                    ctx.problems.append(Problem('property-fails', 'label %r of %s::%s begins or ends with white space: formatting it and parsing the text back gives UnknownUnit' % (l, q['module'], u['name']),
+                                                line='label %s %s %r' % (q['module'], u['name'], l), failing_input=True, tag='label-trim'))
+                conv = (F(*u['coef_exact']), F(*u['cons_exact']) if u.get('cons_exact') else None)
+                if l in seen and seen[l][1] != conv:
+                    ctx.problems.append(Problem('property-fails', 'label %r denotes two conversions in %s: units %s and %s' % (l, q['module'], seen[l][0], u['name']),
+                                                line='label %s %r %s %s' % (q['module'], l, seen[l][0], u['name']), failing_input=True, tag='label-collision'))
+                seen.setdefault(l, (u['name'], conv))
+    if not any(p.failing_input for p in ctx.problems):
+        search_with(run_c12)(ctx)
+
+
+spec('C12', run=run_c12, search=search_c12,
+     rule='all 7 611 labels of all 115 quantities (f64, default base units) with 14 number forms, 9 mutations per label (double blank, trailing blank, tab, NBSP/U+3000, missing '
+          'separator, leading blank, bad number, trailing junk, upper-cased + U+2028), labels of other quantities, empty/blank strings, seeded random strings over a unicode alphabet; '
+          '12 quantities additionally in kgh (f64) and cgs (f32) base units; format-then-parse for 42 units × both styles × 3 base/storage combinations; non-trivial: every case',
+     trusted_base=['V::from_str of the number part is a parameter (the harness reports it for the part the model splits off)', 'labels/coefficients come from the table validated by the C05 registry diff'],
+     assumptions=['format-then-parse oracle: 8u·(|v| + |offset|), when no conversion intermediate over/underflows'])
+
+
 def replay(ctx, spec_, path):
     with open(path, encoding='utf-8') as f:
         body = json.load(f)
